@@ -1041,7 +1041,7 @@ static int	make_boot_catalog(struct archive_write *);
 static int	setup_boot_information(struct archive_write *);
 
 static int	zisofs_init(struct archive_write *, struct isofile *);
-static void	zisofs_detect_magic(struct archive_write *,
+static int	zisofs_detect_magic(struct archive_write *,
 		    const void *, size_t);
 static int	zisofs_write_to_temp(struct archive_write *,
 		    const void *, size_t);
@@ -1782,8 +1782,9 @@ write_iso9660_data(struct archive_write *a, const void *buff, size_t s)
 		ts = (size_t)(MULTI_EXTENT_SIZE - LOGICAL_BLOCK_SIZE -
 		    iso9660->cur_file->cur_content->size);
 
-		if (iso9660->zisofs.detect_magic)
-			zisofs_detect_magic(a, buff, ts);
+		if (iso9660->zisofs.detect_magic &&
+		    zisofs_detect_magic(a, buff, ts) != ARCHIVE_OK)
+			return (ARCHIVE_FATAL);
 
 		if (iso9660->zisofs.making) {
 			if (zisofs_write_to_temp(a, buff, ts) != ARCHIVE_OK)
@@ -1824,8 +1825,9 @@ write_iso9660_data(struct archive_write *a, const void *buff, size_t s)
 #endif
 	}
 
-	if (iso9660->zisofs.detect_magic)
-		zisofs_detect_magic(a, buff, ws);
+	if (iso9660->zisofs.detect_magic &&
+	    zisofs_detect_magic(a, buff, ws) != ARCHIVE_OK)
+		return (ARCHIVE_FATAL);
 
 	if (iso9660->zisofs.making) {
 		if (zisofs_write_to_temp(a, buff, ws) != ARCHIVE_OK)
@@ -7687,7 +7689,7 @@ zisofs_init(struct archive_write *a,  struct isofile *file)
 	return (ARCHIVE_OK);
 }
 
-static void
+static int
 zisofs_detect_magic(struct archive_write *a, const void *buff, size_t s)
 {
 	struct iso9660 *iso9660 = a->format_data;
@@ -7723,7 +7725,7 @@ zisofs_detect_magic(struct archive_write *a, const void *buff, size_t s)
 			    + iso9660->zisofs.magic_cnt, buff, l);
 			iso9660->zisofs.magic_cnt += (int)l;
 			if (iso9660->zisofs.magic_cnt < magic_max)
-				return;
+				return (ARCHIVE_OK);
 		}
 		magic_buff = iso9660->zisofs.magic_buffer;
 	}
@@ -7733,7 +7735,7 @@ zisofs_detect_magic(struct archive_write *a, const void *buff, size_t s)
 	/* Check the magic code of zisofs. */
 	if (memcmp(p, zisofs_magic, sizeof(zisofs_magic)) != 0)
 		/* This is not zisofs file which made by mkzftree. */
-		return;
+		return (ARCHIVE_OK);
 	p += sizeof(zisofs_magic);
 
 	/* Read a zisofs header. */
@@ -7742,14 +7744,14 @@ zisofs_detect_magic(struct archive_write *a, const void *buff, size_t s)
 	log2_bs = p[5];
 	if (uncompressed_size < 24 || header_size != 4 ||
 	    log2_bs > 30 || log2_bs < 7)
-		return;/* Invalid or not supported header. */
+		return (ARCHIVE_OK);/* Invalid or not supported header. */
 
 	/* Calculate a size of Block Pointers of zisofs. */
 	_ceil = (uncompressed_size +
 	        (ARCHIVE_LITERAL_LL(1) << log2_bs) -1) >> log2_bs;
 	doff = (_ceil + 1) * 4 + 16;
 	if (entry_size < (int64_t)doff)
-		return;/* Invalid data. */
+		return (ARCHIVE_OK);/* Invalid data. */
 
 	/* Check every Block Pointer has valid value. */
 	p = magic_buff + 16;
@@ -7757,13 +7759,29 @@ zisofs_detect_magic(struct archive_write *a, const void *buff, size_t s)
 	while (_ceil && p + 8 <= endp) {
 		bst = archive_le32dec(p);
 		if (bst != doff)
-			return;/* Invalid data. */
+			return (ARCHIVE_OK);/* Invalid data. */
 		p += 4;
 		bed = archive_le32dec(p);
 		if (bed < bst || bed > entry_size)
-			return;/* Invalid data. */
+			return (ARCHIVE_OK);/* Invalid data. */
 		doff += bed - bst;
 		_ceil--;
+	}
+
+	if (iso9660->zisofs.making) {
+		/*
+		 * zisofs_init() has reserved room for a header of our own
+		 * in front of the data.  A part of the file that went
+		 * through the compressor already cannot be taken back, so
+		 * such a file is compressed like any other; otherwise give
+		 * the reserved room back.
+		 */
+		if (magic_buff != buff)
+			return (ARCHIVE_OK);
+		if (wb_set_offset(a, file->content.offset_of_temp)
+		    != ARCHIVE_OK)
+			return (ARCHIVE_FATAL);
+		file->cur_content->size = 0;
 	}
 
 	file->zisofs.uncompressed_size = uncompressed_size;
@@ -7772,6 +7790,7 @@ zisofs_detect_magic(struct archive_write *a, const void *buff, size_t s)
 
 	/* Disable making a zisofs image. */
 	iso9660->zisofs.making = 0;
+	return (ARCHIVE_OK);
 }
 
 #ifdef HAVE_ZLIB_H
